@@ -233,13 +233,22 @@ func (c *Ctx) structSort(t types.Type, u *types.Struct) string {
 	var fields []string
 	for i := 0; i < u.NumFields(); i++ {
 		fs := c.sortOf(u.Field(i).Type())
-		fields = append(fields, fmt.Sprintf("(%s..%s %s)", name, sanitize(u.Field(i).Name()), fs))
+		fields = append(fields, fmt.Sprintf("(%s..%s %s)", name, fieldName(u, i), fs))
 	}
 	if len(fields) == 0 {
 		fields = append(fields, fmt.Sprintf("(%s..__unit Int)", name))
 	}
 	c.sortDecls = append(c.sortDecls, fmt.Sprintf("(declare-datatypes ((%s 0)) (((mk-%s %s))))", name, name, strings.Join(fields, " ")))
 	return name
+}
+
+// fieldName: accessor-safe field name (blank fields are numbered).
+func fieldName(st *types.Struct, i int) string {
+	n := st.Field(i).Name()
+	if n == "_" {
+		return fmt.Sprintf("blank%d", i)
+	}
+	return sanitize(n)
 }
 
 func (c *Ctx) tupleSort(u *types.Tuple) string {
@@ -419,7 +428,7 @@ func (c *Ctx) comp(name, sort string) string {
 
 func (c *Ctx) fieldComp(structSort string, st *types.Struct, i int) string {
 	fs := c.sortOf(st.Field(i).Type())
-	return c.comp("F_"+strings.TrimPrefix(structSort, "S_")+"_"+sanitize(st.Field(i).Name()), "(Array Int "+fs+")")
+	return c.comp("F_"+strings.TrimPrefix(structSort, "S_")+"_"+fieldName(st, i), "(Array Int "+fs+")")
 }
 func (c *Ctx) elemComp(elemSort string) string {
 	return c.comp("E_"+sanitize(elemSort), "(Array Int (Array Int "+elemSort+"))")
